@@ -19,6 +19,18 @@ Theorem C09_crash_old_or_new :
   reads_agree (final_image wm iv c) v /\ length (fst v) <= L.
 Proof. exact crash_old_or_new. Qed.
 
+(* The same for any writer of that shape -- arbitrary operations that never put the reference header's
+   distinguishing byte (index 34, 'f') in place, in any order and chunking (so also a process killed inside a
+   write, at any byte), then fsync, then one store of the header inside the first page, then only
+   syncs/unmaps/close.  C09_crash_old_or_new is the instance for the trace of lm/binary_format.cc. *)
+Theorem C09_crash_old_or_new_any_writer :
+  forall pm_ok body_size words_ok A T hop hdr t1 t2 sel L cfg v,
+  Forall safe_op A -> Forall quiet_op T -> hop = MapStore 0 hdr \/ hop = Write 0 hdr -> length hdr <= page ->
+  A ++ Fsync :: hop :: T = t1 ++ t2 ->
+  load pm_ok body_size words_ok cfg (crash_image (run empty_file t1) sel L) = Some v ->
+  reads_agree (cache (run empty_file (A ++ [Fsync; hop]))) v /\ length (fst v) <= L.
+Proof. exact general_crash. Qed.
+
 (* The complete Sanity header is visible (in the page cache) only when every other byte of the file is
    already on stable storage with its final value. *)
 Theorem C09_header_last : forall wm iv c t1 t2, wf_contents c -> finish_trace wm iv c = t1 ++ t2 ->
